@@ -106,10 +106,19 @@ def build_harness(profile="release"):
     return b
 
 
-def run_harness(args, profile="release", timeout=1800, stdin=None):
+class HarnessDied(Exception):
+    """the harness process itself died (abort, kill, watchdog): the code under test took the process down"""
+    def __init__(self, rc, stderr):
+        self.rc = rc
+        self.stderr = stderr
+
+
+def run_harness(args, profile="release", timeout=1800, stdin=None, died_ok=False):
     b = build_harness(profile)
     p = subprocess.run(["timeout", str(timeout), b] + args, stdout=subprocess.PIPE, stderr=subprocess.PIPE, text=True, input=stdin)
     if p.returncode != 0:
+        if died_ok and p.returncode not in (2, 124, 125, 126, 127):
+            raise HarnessDied(p.returncode, (p.stderr or "")[-1000:])
         raise ToolError("harness %s exited %d: %s" % (" ".join(args[:4]), p.returncode, (p.stderr or p.stdout)[-2000:]))
     return p.stdout
 
